@@ -17,7 +17,7 @@ from sim.core.prng import digest, weighted
 DEFAULT_OPTIONS = {"strictness": "relaxed", "limit_rules": [], "limit_categories": [], "tta": True,
                    "tta_threshold": 0.65, "cutoff_mult": 1.0, "nbh_mult": 1.5,
                    "tfbs": False, "tfbs_pvalue": 0.0005, "tfbs_range": 50,
-                   "rre": False, "rre_cutoff": 25.0, "rre_minlength": 50}
+                   "rre": False, "rre_cutoff": 25.0, "rre_minlength": 50, "pfam_version": "latest"}
 HMM_KEYS = ("strictness", "limit_rules", "limit_categories", "cutoff_mult", "nbh_mult")
 SCHEMA_TARGETS = ["HMMDetectionResults", "RuleDetectionResults", "TTAResults", "NRPSPKSDomains", "SideloadedResults",
                   "AntismashResults"]
@@ -46,6 +46,9 @@ def option_args(options: Dict[str, Any], fungi: bool) -> List[str]:
              str(options.get("rre_minlength", 50))]
     if options.get("rre"):
         args += ["--rre"]
+    # the Pfam release of the HMMer based annotations (only looked at when those analyses are requested)
+    args += ["--clusterhmmer-pfamdb-version", options.get("pfam_version", "latest"),
+             "--fullhmmer-pfamdb-version", options.get("pfam_version", "latest")]
     if fungi:
         args += ["--taxon", "fungi", "--hmmdetection-fungal-cutoff-multiplier", str(options["cutoff_mult"]),
                  "--hmmdetection-fungal-neighbourhood-multiplier", str(options["nbh_mult"])]
@@ -147,7 +150,10 @@ class ReuseHistory(Engine):
         toggles = [arg for arg in base["extra_args"] if arg in ("--clusterhmmer", "--fullhmmer", "--pfam2go", "--enable-t2pks", "--enable-terpene", "--tigrfam",
                               "--enable-genefunctions")]
         scenario: Dict[str, Any] = {"records": base["records"], "hits": base["hits"], "domain_hits": base["domain_hits"],
-                                    "domain_lengths": base["domain_lengths"], "fungi": rng.random() < 0.25,
+                                    "domain_lengths": base["domain_lengths"],
+                                    # (fungal records are never treated as circular: origin-spanning genes are refused)
+                                    "fungi": rng.random() < 0.25 and not any(len(gene["parts"]) == 2 for record in
+                                                                             base["records"] for gene in record["genes"]),
                                     "toggles": toggles, "sideload_cli": base["sideload_cli"]}
         # TTA only looks at regions of GC rich records; plant some TTA codons in frame
         for record in scenario["records"]:
@@ -157,6 +163,17 @@ class ReuseHistory(Engine):
                     start = gene["parts"][0][0] + 3 * rng.randrange(1, 20)
                     codon = "TTA" if gene["strand"] == 1 else "TAA"
                     seq[start:start + 3] = list(codon)
+                elif len(gene["parts"]) == 2:
+                    # a gene spanning the origin whose parts are not whole codons: the codon straddling the origin
+                    # becomes TTA (forward strand: T,T,A in reading order; reverse strand: its reverse complement)
+                    total = len(seq)
+                    lower = next(e for b, e in gene["parts"] if b == 0)
+                    upper = next(e - b for b, e in gene["parts"] if e == total)
+                    phase = upper % 3 if gene["strand"] == 1 else (3 - lower % 3) % 3
+                    if phase:
+                        positions = [total - 1, 0, 1] if phase == 1 else [total - 2, total - 1, 0]
+                        for position, letter in zip(positions, "TTA" if gene["strand"] == 1 else "TAA"):
+                            seq[position] = letter
             if rng.random() < 0.15:   # a low-GC record: TTA skipped at the default threshold
                 seq = list("".join(rng.choice("ATATGC") for _ in seq))
             record["seq"] = "".join(seq)
@@ -182,7 +199,8 @@ class ReuseHistory(Engine):
                 options = copy.deepcopy(options)
                 what = rng.choice(["strictness", "limit_rules", "limit_categories", "tta_threshold", "tta", "multipliers",
                                    "tfbs", "tfbs_pvalue", "tfbs_range"]
-                                  + (["rre", "rre_cutoff", "rre_minlength"] * 2 if "--rre" in base["extra_args"] else []))
+                                  + (["rre", "rre_cutoff", "rre_minlength"] * 2 if "--rre" in base["extra_args"] else [])
+                                  + (["pfam_version"] * 3 if {"--clusterhmmer", "--fullhmmer"} & set(toggles) else []))
                 if what == "strictness":
                     options["strictness"] = rng.choice([s for s in ("strict", "relaxed", "loose") if s != options["strictness"]])
                 elif what == "limit_rules":
@@ -199,6 +217,8 @@ class ReuseHistory(Engine):
                     options["tfbs_pvalue"] = rng.choice([p for p in (0.00001, 0.0005, 0.002) if p != options["tfbs_pvalue"]])
                 elif what == "tfbs_range":
                     options["tfbs_range"] = 120 if options["tfbs_range"] == 50 else 50
+                elif what == "pfam_version":
+                    options["pfam_version"] = rng.choice([v for v in ("latest", "34.0", "35.0") if v != options["pfam_version"]])
                 elif what == "rre":
                     options["rre"] = not options["rre"]
                 elif what == "rre_cutoff":
@@ -314,10 +334,12 @@ class _History:
         else:
             inv["input"] = None
             inv["args"] = args + ["--reuse-results", os.path.join(outdir, "input.json")]
-            inv["hits"] = []           # a reuse run that needs hmmsearch results finds none: recomputing is visible
-            # ... except for RREFinder, which by design discards stored results when its settings become more
-            # lenient (or it is requested for the first time) and searches again: hmmscan answers as it did before
-            inv["domain_hits"] = {"RREFam.hmm": sc["domain_hits"].get("RREFam.hmm", [])}
+            # a reuse run that needs hmmsearch results for rule detection finds none (rule detection never searches
+            # again on reuse).  The hmmscan based analyses may by design search again - RREFinder when its settings
+            # become more lenient or it is requested for the first time, the Pfam annotations when another Pfam
+            # release is requested - and hmmscan then answers as it did before; that an analysis is not repeated
+            # under unchanged settings is checked from the recorded regenerate / run calls instead
+            inv["hits"] = []
 
         def all_hooks(invocation: Dict[str, Any]) -> None:
             _recorder(invocation)
@@ -350,6 +372,7 @@ class _History:
                 return self._finish()
             self._content_probes(state)
             good_options = steps[0]["options"]
+            deferred: set = set()
             for index, step in enumerate(steps[1:], start=1):
                 if res["violations"]:
                     break
@@ -373,6 +396,10 @@ class _History:
                 changed = [key for key in step["options"] if step["options"][key] != good_options[key]]
                 if changed in (["tta"], ["tfbs"], ["rre"]) and not step["options"][changed[0]]:
                     changed = []      # an analysis is no longer requested: its stored results stay as they are
+                # a Pfam release requested while the Pfam analyses were not asked for takes effect (as a changed
+                # setting) in the first later invocation that asks for them again
+                if not step.get("toggles_off") and deferred:
+                    changed = sorted(set(changed) | deferred)
                 if not changed:
                     new_state = self._judge_unchanged(label, result, outdir, state, regen, runs)
                 else:
@@ -381,6 +408,10 @@ class _History:
                 if new_state is not None:
                     state = new_state
                     good_options = step["options"]
+                    if step.get("toggles_off"):
+                        deferred |= {key for key in changed if key == "pfam_version"}
+                    else:
+                        deferred.clear()
             return self._finish()
         finally:
             P.cleanup(work)
